@@ -51,3 +51,10 @@
             assert(x == 8192 * (x / 8192) + m);
         }
     }
+    pub open spec fn spec_abs(x: int) -> int { if x < 0 { -x } else { x } }
+    // zeta^j mod q (FIPS 204 section 2.5: zeta = 1753)
+    pub open spec fn zpow(j: int) -> int decreases j { if j <= 0 { 1 } else { (zpow(j - 1) * 1753) % (Q as int) } }
+    // Algorithm 43 BitRev8
+    pub open spec fn brv8(x: u8) -> u8 {
+        ((x & 1) << 7) | ((x & 2) << 5) | ((x & 4) << 3) | ((x & 8) << 1) | ((x & 16) >> 1) | ((x & 32) >> 3) | ((x & 64) >> 5) | ((x & 128) >> 7)
+    }
